@@ -173,7 +173,7 @@ pub fn main(ctx: &Ctx) -> i32 {
         }
     }
     // 4+5. generated valid texts and near misses
-    let nvalid = ctx.tier.pick(5000usize, 300_000usize);
+    let nvalid = ctx.tier.pick(5000usize, 1_000_000usize);
     let nmut = ctx.tier.pick(10usize, 10usize);
     let nw = workers();
     par(nw, |w| {
